@@ -81,21 +81,24 @@ def run(ctx):
     # ---- triage conditions -------------------------------------------------------------------------------------
     cond = {}
     # c14: letters reach letter_id_to_number only via _parse_generation_matcher(text[i:]) under i < len(text) after the _is_letter loop
-    callers = [f.short for f, n in named_call_sites(repo, 'letter_id_to_number')]
+    from .common import effective_funcs, scope_nodes
+    callers = sorted({g.short for f, n in named_call_sites(repo, 'letter_id_to_number') for g in effective_funcs(repo, f)})
     f_poi = repo.func('matcher._parse_obj_id_matcher')
-    gen_calls = [f.short for f, n in named_call_sites(repo, '_parse_generation_matcher')]
+    gen_calls = sorted({g.short for f, n in named_call_sites(repo, '_parse_generation_matcher') for g in effective_funcs(repo, f)})
     ok14 = callers == ['_parse_generation_matcher'] and gen_calls == ['_parse_obj_id_matcher']
     if ok14:
         ok14 = False
         for p in paths_of(repo, f_poi, while_unroll=1):
             for e in p.events:
                 if e.kind == 'call' and e.ftext == '_parse_generation_matcher':
+                    a0 = e.argtext(0) or ''
                     lt = [v for a, v in p.decisions if re.match(r'^.+ < len\(text\)$', a.text)]
-                    ok14 = bool(lt) and lt[-1] and bool(re.match(r'^text\[.+:\]$', e.argtext(0) or ''))
+                    nonempty = [v for a, v in p.decisions if a.text == a0]          # `if suffix:` on the very slice passed
+                    ok14 = ((bool(lt) and lt[-1]) or (bool(nonempty) and nonempty[-1])) and bool(re.match(r'^text\[.+:\]$', a0))
     if ok14:
         # the cut is placed by the _is_letter loop, and _is_letter accepts ASCII letters only
-        loops = [n for n in f_poi.body_nodes() if isinstance(n, ast.While)]
-        ok14 = len(loops) == 1 and '_is_letter(text[i - 1])' in norm(loops[0].test) and isinstance(loops[0].test, ast.BoolOp) and isinstance(loops[0].test.op, ast.And)
+        loops = [n for g_, n in scope_nodes(repo, f_poi) if isinstance(n, ast.While)]
+        ok14 = len(loops) == 1 and re.search(r'_is_letter\(text\[\w+ - 1\]\)', norm(loops[0].test)) is not None and isinstance(loops[0].test, ast.BoolOp) and isinstance(loops[0].test.op, ast.And)
         f_isl = repo.func('matcher._is_letter')
         rets = [n for n in f_isl.body_nodes() if isinstance(n, ast.Return)]
         vdef = {n.targets[0].id: n.value for n in f_isl.body_nodes() if isinstance(n, ast.Assign) and isinstance(n.targets[0], ast.Name)}
